@@ -1103,8 +1103,8 @@ class Interp:
                 if r is _MISSING:
                     return args[1] if len(args) > 1 else None
                 return r
-            if name in ('items', 'keys', 'values') and isinstance(obj, dict):
-                return list(getattr(obj, name)())
+            if name in ('items', 'keys', 'values') and isinstance(obj, dict) and not args:
+                return getattr(obj, name)()        # the real view: set algebra on keys(), live during iteration
             if any(isinstance(a, (Sym, Opaque, SObj)) for a in args) and not isinstance(obj, (list, dict, set)):
                 if isinstance(obj, str):
                     return Opaque('str')
@@ -1139,8 +1139,28 @@ class Interp:
                 raise Unsupported('symstr.%s' % name)
             raise Unsupported('method %s of symbolic string' % name)
         if s.sort in ('int', 'bool'):
+            if name == 'bit_length':
+                return Builtin('int.bit_length', lambda it, a, k: self._bit_length(s))
+            if name in ('real', 'numerator'):
+                return s
+            if hasattr(int, name):
+                raise Unsupported('int.%s of a symbolic integer' % name)
             py_raise('AttributeError', "'int' object has no attribute '%s'" % name)
         raise Unsupported('attribute of symbolic value')
+
+    def _bit_length(self, s):
+        """int.bit_length(): the n with 2**(n-1) <= |x| < 2**n (0 for x == 0), exact for |x| < 2**96 as an ite chain;
+        larger magnitudes get an otherwise unconstrained n > 96"""
+        if not isinstance(self.dom, IntDom):
+            raise Unsupported('bit_length in the bit-vector back end')
+        x = self.dom.lift(s).t
+        ax = z3.If(x >= 0, x, -x)
+        big = z3.Int(self.run.fresh_name('bit_length'))
+        self.run.assume(big > 96)
+        acc = big
+        for k in range(96, -1, -1):
+            acc = z3.If(ax < 2 ** k, z3.IntVal(k), acc)
+        return Sym('int', acc)
 
     def dict_get_sym(self, d, key):
         """lookup of a symbolic key in a concrete dict: forks on membership; _MISSING on the absent path"""
@@ -1474,6 +1494,8 @@ class Interp:
             return list(v)
         if isinstance(v, dict):
             return list(v.keys())
+        if isinstance(v, _DICT_VIEWS):
+            return list(v)
         if hasattr(v, '__next__') or isinstance(v, (enumerate, zip, map, filter, reversed)):
             return v
         if isinstance(v, SymDictBase):
@@ -2444,6 +2466,7 @@ class ChainMapVal(SymDictBase):
 
 
 BUILTINS = {}
+_DICT_VIEWS = (type({}.keys()), type({}.items()), type({}.values()))
 
 
 def _reg(name, impl):
@@ -2532,7 +2555,10 @@ def _init_modules():
     _MODULES['collections'] = ModuleStub('collections', {'ChainMap': Builtin('ChainMap', _b_chainmap)})
     _MODULES['ctypes'] = ModuleStub('ctypes', {'c_uint32': Builtin('c_uint32', _b_c_uint32),
                                                'c_int32': Builtin('c_int32', _b_c_int32)})
-    _MODULES['functools'] = ModuleStub('functools', {'partial': Builtin('partial', _b_partial)})
+    _MODULES['functools'] = ModuleStub('functools', {'partial': Builtin('partial', _b_partial),
+                                                     # importable; a function under one of these is outside the subset (s_FunctionDef)
+                                                     'lru_cache': Opaque('functools.lru_cache'), 'cache': Opaque('functools.cache'),
+                                                     'wraps': Opaque('functools.wraps'), 'reduce': Opaque('functools.reduce')})
     ospath = ModuleStub('os.path', {n: _concrete_or_external('os.path.' + n, getattr(os.path, n) if n in ('join', 'dirname', 'basename') else None)
                                     for n in ['join', 'dirname', 'basename', 'abspath', 'exists', 'isdir', 'getsize', 'isfile']})
     _MODULES['os'] = ModuleStub('os', {'path': ospath, 'getcwd': _concrete_or_external('os.getcwd', None)})
